@@ -279,6 +279,7 @@ type LKey = (String, String, String, String); // component iri, subject, annotat
 
 fn lex_expected(c: &Case, ex: &BTreeMap<Fact, u64>) -> BTreeMap<LKey, u64> {
     ex.iter()
+        .filter(|(f, _)| c.comps[pdecode(f.1).0].kind != Kind::Unregistered)
         .map(|(f, e)| {
             let (comp, local) = pdecode(f.1);
             ((c.comps[comp].iri.clone(), ent(f.0 as usize), annot(c, comp, local), ent(f.2 as usize)), *e)
@@ -324,6 +325,7 @@ fn decode_buckets(b: &HashMap<String, Vec<Triple>>, dict: &Arc<RwLock<Dictionary
 }
 fn stripped_expected(c: &Case, ex: &BTreeMap<Fact, u64>) -> BTreeSet<LKey> {
     ex.keys()
+        .filter(|f| c.comps[pdecode(f.1).0].kind != Kind::Unregistered)
         .map(|f| {
             let (comp, local) = pdecode(f.1);
             (c.comps[comp].iri.clone(), ent(f.0 as usize), local_name(local), ent(f.2 as usize))
@@ -375,21 +377,15 @@ fn fmt_map(m: &BTreeMap<LKey, u64>) -> Vec<String> {
 }
 
 /// role of a fact of the from-scratch model at this step (established with the oracle)
-fn role_of(c: &Case, orules: &[Rule], ex: &Expected, f: &Fact) -> &'static str {
-    let (comp, _) = pdecode(f.1);
+fn role_of(orules: &[Rule], ex: &Expected, f: &Fact) -> &'static str {
     let is_base = ex.base.contains_key(f);
     let mut input: BTreeSet<Fact> = ex.base.keys().copied().collect();
     input.remove(f);
     let derivable = least_model(orules, &input, &no_decode).facts.contains(f);
-    match (&c.comps[comp].kind, is_base, derivable) {
-        (Kind::Window(_), true, false) => "window_fact",
-        (Kind::Window(_), true, true) => "window_fact_also_derived",
-        (Kind::Window(_), false, _) => "derived_into_window_component",
-        (Kind::Static, true, false) => "static_fact",
-        (Kind::Static, true, true) => "static_fact_also_derived",
-        (Kind::Static, false, _) => "derived_into_static_component",
-        (Kind::Output, _, _) => "derived_output_fact",
-        (Kind::Unregistered, _, _) => "fact_with_unregistered_prefix",
+    match (is_base, derivable) {
+        (true, false) => "base_fact",
+        (true, true) => "base_fact_that_is_also_derived",
+        (false, _) => "derived_fact",
     }
 }
 
@@ -565,13 +561,12 @@ fn run_history(c: &Case, order_seed: u64, want_trace: bool) -> (Option<Finding>,
             let ofact: Option<Fact> = ex.facts.keys().find(|f| lkey_of(c, f) == key).copied();
             let prev_fact_exp: Option<u64> = prev_exp.as_ref().and_then(|p| p.facts.iter().find(|(f, _)| lkey_of(c, f) == key).map(|(_, e)| *e));
             let role = match &ofact {
-                Some(f) => role_of(c, &orules, &ex, f),
+                Some(f) => role_of(&orules, &ex, f),
                 None => "not_entailed",
             };
             let mut sig = json!({
                 "kind": kind,
                 "fact": role,
-                "step": if i == 0 { "first" } else { "later" },
                 "correct_when_started_from_empty_state": fresh_ok,
                 "naive_sds_plus_correct": naive_ok,
             });
@@ -784,6 +779,8 @@ struct Gen<'a> {
     next_out_local: usize,
     n_ent: usize,
     n_local: usize,
+    /// larger scope (thorough tier only): more entities, items and evaluation times
+    big: bool,
 }
 
 fn v(i: u8) -> PT {
@@ -794,7 +791,7 @@ fn at(comp: usize, local: usize, s: PT, o: PT) -> Atom {
 }
 
 impl<'a> Gen<'a> {
-    fn new(r: &'a mut Rng, n_win: usize) -> Self {
+    fn new(r: &'a mut Rng, n_win: usize, big: bool) -> Self {
         let style = r.weighted(&[60, 20, 20]);
         let mut comps = vec![];
         let mut windows = vec![];
@@ -835,9 +832,9 @@ impl<'a> Gen<'a> {
             outputs.push(comps.len());
             comps.push(Comp { iri, kind: Kind::Output });
         }
-        let n_ent = r.range(2, 4);
+        let n_ent = if big { r.range(3, 5) } else { r.range(2, 4) };
         let n_local = r.range(1, 3);
-        Gen { r, comps, windows, statics, outputs, rules: vec![], features: vec![], next_out_local: 0, n_ent, n_local }
+        Gen { r, comps, windows, statics, outputs, rules: vec![], features: vec![], next_out_local: 0, n_ent, n_local, big }
     }
     fn win(&mut self) -> usize {
         *self.r.pick(&self.windows)
@@ -1029,6 +1026,17 @@ impl<'a> Gen<'a> {
                     self.push(vec![at(b, lb, v(0), v(1))], vec![at(n1.0, n1.1, PT::E(e1), PT::E(e2))]);
                 }
             }
+            "unregistered_intermediate" => {
+                // W_a:p(X,Y) => tmp:q(X,Y) ; tmp:q(X,Y) , W_b:r(Y,Z) => out:s(X,Z)
+                let hid = self.comps.len();
+                self.comps.push(Comp { iri: "urn:tmp:".into(), kind: Kind::Unregistered });
+                let a = self.win();
+                let b = self.other_win(a);
+                let (la, lb) = (self.loc(), self.loc());
+                let nx = self.fresh_out();
+                self.push(vec![at(a, la, v(0), v(1))], vec![at(hid, 0, v(0), v(1))]);
+                self.push(vec![at(hid, 0, v(0), v(1)), at(b, lb, v(1), v(2))], vec![at(nx.0, nx.1, v(0), v(2))]);
+            }
             _ => unreachable!(),
         }
     }
@@ -1119,7 +1127,7 @@ impl<'a> Gen<'a> {
             wpreds.push((w, 0));
         }
         let horizon = self.r.range(5, 28) as u64;
-        let n_items = self.r.range(2, 14);
+        let n_items = if self.big { self.r.range(8, 24) } else { self.r.range(2, 14) };
         let mut items: Vec<Item> = vec![];
         for _ in 0..n_items {
             let (w, l) = if self.r.chance(9, 10) { *self.r.pick(&wpreds) } else { (self.win(), self.loc()) };
@@ -1176,7 +1184,7 @@ impl<'a> Gen<'a> {
             last_expiry = last_expiry.max(it.t + a);
         }
         let cand: Vec<u64> = cand.into_iter().collect();
-        let n = self.r.range(3, 12);
+        let n = if self.big { self.r.range(8, 18) } else { self.r.range(3, 12) };
         let mode = time_mode_hint.unwrap_or_else(|| self.r.weighted(&[50, 25, 25]));
         let mut times: BTreeSet<u64> = BTreeSet::new();
         let time_mode = match mode {
@@ -1219,9 +1227,9 @@ impl<'a> Gen<'a> {
 
 const FEATURES: [&str; 11] = ["chain", "join2", "join3", "static_join", "static_only", "transitive_closure", "two_derivations", "into_window", "cycle", "multi_head", "constants"];
 
-fn gen_scenario(r: &mut Rng, k: u64) -> Case {
+fn gen_scenario(r: &mut Rng, k: u64, big: bool) -> Case {
     let n_win = r.weighted(&[10, 50, 35, 5]) + 1;
-    let mut g = Gen::new(r, n_win);
+    let mut g = Gen::new(r, n_win, big);
     // every feature is visited round-robin by k, plus random companions
     let first = FEATURES[(k % FEATURES.len() as u64) as usize];
     g.feature(first);
@@ -1236,9 +1244,20 @@ fn gen_scenario(r: &mut Rng, k: u64) -> Case {
     g.finish(None)
 }
 
-fn gen_random(r: &mut Rng) -> Case {
+fn gen_probe(r: &mut Rng) -> Case {
+    let n_win = r.weighted(&[10, 60, 30]) + 1;
+    let mut g = Gen::new(r, n_win, false);
+    g.feature("unregistered_intermediate");
+    if g.r.coin() {
+        let f = *g.r.pick(&FEATURES);
+        g.feature(f);
+    }
+    g.finish(None)
+}
+
+fn gen_random(r: &mut Rng, big: bool) -> Case {
     let n_win = r.weighted(&[15, 45, 35, 5]) + 1;
-    let mut g = Gen::new(r, n_win);
+    let mut g = Gen::new(r, n_win, big);
     if g.r.chance(1, 3) {
         let f = *g.r.pick(&FEATURES);
         g.feature(f);
@@ -1305,10 +1324,28 @@ fn gen_exhaustive(k: u64) -> Case {
 // driver
 // ----------------------------------------------------------------------------------------
 
-fn handle(ctx: &mut Ctx, c: &Case, order_seed: u64) {
+thread_local! {
+    static SHRUNK: std::cell::RefCell<BTreeSet<String>> = std::cell::RefCell::new(BTreeSet::new());
+}
+
+fn handle(ctx: &mut Ctx, c: &Case, order_seed: u64, probe: bool) {
     let cj = case_json(c);
     let (finding, st, _) = run_history(c, order_seed, false);
     ctx.add_evals(st.evals);
+    if probe {
+        // informational only: rules using a predicate prefix that is not a component of the SDS are
+        // outside the quantifier of C12 ("rule sets over window-annotated predicates")
+        ctx.count("outside_quantifier.histories_with_unregistered_intermediate_predicate", 1);
+        if let Some(f) = finding {
+            ctx.count(&format!("outside_quantifier.incremental_differs_from_recomputation.{}", f.sig["kind"].as_str().unwrap_or("?")), 1);
+            if ctx.wants_sample() {
+                let (small, _) = shrink(c, &f.sig, order_seed);
+                let (f2, _, _) = run_history(&small, order_seed, false);
+                ctx.sample(json!({"note": "outside the quantifier of C12, not a violation", "signature": f.sig, "shrunk_history": case_json(&small), "failing_step": f2.map(|x| x.detail)}));
+            }
+        }
+        return;
+    }
     for (k, n) in &st.n {
         ctx.count(k, *n);
     }
@@ -1343,6 +1380,12 @@ fn handle(ctx: &mut Ctx, c: &Case, order_seed: u64) {
         ctx.sample(json!({"history": cj, "steps": st.n.get("steps"), "derived_facts_compared": st.n.get("facts.derived")}));
     }
     if let Some(f) = finding {
+        // shrink only the first witness of a signature (the runtime keeps one per signature anyway)
+        let first_of_its_kind = SHRUNK.with(|s| s.borrow_mut().insert(f.sig.to_string()));
+        if !first_of_its_kind {
+            ctx.violation(f.sig, json!({"history": cj, "first_failing_step": f.detail}));
+            return;
+        }
         let (small, tries) = shrink(c, &f.sig, order_seed);
         let (f2, _, trace) = run_history(&small, order_seed, true);
         let small_detail = f2.map(|x| x.detail);
@@ -1352,31 +1395,56 @@ fn handle(ctx: &mut Ctx, c: &Case, order_seed: u64) {
 
 fn run(ctx: &mut Ctx) {
     ctx.phase("exhaustive_small", EXH_TOTAL);
+    let mut complete = true;
     while let Some(k) = ctx.next_case() {
-        if !ctx.within(0.4) {
+        if !ctx.within(0.25) {
             ctx.count("exhaustive_small.stopped_by_budget_share", 1);
+            complete = false;
             break;
         }
         let c = gen_exhaustive(k);
-        handle(ctx, &c, k);
+        handle(ctx, &c, k, false);
+    }
+    if complete && !ctx.replaying() {
+        ctx.count("exhaustive_small.shards_that_enumerated_their_whole_share", 1);
     }
 
-    ctx.phase("scenarios", ctx.by_tier(16_000, 600_000));
+    probe_phase(ctx);
+
+    let thorough = ctx.thorough();
+    ctx.phase("scenarios", ctx.by_tier(10_000, 500_000));
     while let Some(k) = ctx.next_case() {
-        if !ctx.within(0.7) {
+        if !ctx.within(0.6) {
             ctx.count("scenarios.stopped_by_budget_share", 1);
             break;
         }
         let mut r = ctx.rng(k);
-        let c = gen_scenario(&mut r, k);
-        handle(ctx, &c, r.next_u64());
+        let big = thorough && k % 3 == 0;
+        if big {
+            ctx.count("histories.larger_scope", 1);
+        }
+        let c = gen_scenario(&mut r, k, big);
+        handle(ctx, &c, r.next_u64(), false);
     }
 
-    ctx.phase("random", ctx.by_tier(16_000, 600_000));
+    ctx.phase("random", ctx.by_tier(10_000, 500_000));
     while let Some(k) = ctx.next_case() {
         let mut r = ctx.rng(k);
-        let c = gen_random(&mut r);
-        handle(ctx, &c, r.next_u64());
+        let big = thorough && k % 3 == 0;
+        if big {
+            ctx.count("histories.larger_scope", 1);
+        }
+        let c = gen_random(&mut r, big);
+        handle(ctx, &c, r.next_u64(), false);
+    }
+}
+
+fn probe_phase(ctx: &mut Ctx) {
+    ctx.phase("outside_quantifier_probe", ctx.by_tier(400, 4_000));
+    while let Some(k) = ctx.next_case() {
+        let mut r = ctx.rng(k);
+        let c = gen_probe(&mut r);
+        handle(ctx, &c, r.next_u64(), true);
     }
 }
 
@@ -1389,7 +1457,7 @@ fn main() {
         "histories are window-consistent: a window content lists a triple once with its latest arrival <= T; in 1/5 of the histories it still lists entries up to 3 ticks after their expiry, which translate_sds_to_datalog is documented to drop",
         "oracle: M-DATALOG least model + threshold sweep; histories whose model exceeds 90 facts are skipped and counted",
     ];
-    spec.quick_budget_s = 30;
-    spec.thorough_budget_s = 500;
+    spec.quick_budget_s = 45;
+    spec.thorough_budget_s = 540;
     kvcore::run(spec, run);
 }
